@@ -72,6 +72,24 @@ fn permute<T: Clone>(v: &[T], src: &mut Src) -> Vec<T> {
     out
 }
 
+/// the non-default backend configurations of the `configured-*` legs (replays name them by index)
+fn configured() -> Vec<Cfg> {
+    vec![
+            Cfg {
+                type_annotations: Some(vec![
+                    "#[derive(AsnType, Debug, Clone, Decode, Encode, PartialEq, Eq, Hash)]".into(),
+                    "#[allow(dead_code)]".into(),
+                    "#[doc(hidden)]".into(),
+                    "#[allow(unused_variables)]".into(),
+                    "#[allow(clippy::all)]".into(),
+                ]),
+                custom_imports: vec!["core::fmt::Display".into(), "core::convert::TryFrom".into(), "alloc::string::String".into()],
+                ..Cfg::default()
+            },
+            Cfg { generate_from_impls: true, default_wildcard_imports: true, no_std_compliant_bindings: true, opaque_open_types: false, ..Cfg::default() },
+    ]
+}
+
 fn fail(ctx: &mut Ctx, leg: &str, sources: &[String], variant: &[String], detail: &str) {
     if ctx.violations.len() >= 4 {
         ctx.class("further_failures_not_written");
@@ -109,10 +127,14 @@ pub fn run(tier: Tier, seed: u64, replay: Option<String>) -> i32 {
         let var: Vec<String> = v["variant_sources"].as_array().unwrap().iter().map(|s| s.as_str().unwrap().to_string()).collect();
         // (several rounds and both backends: a dependence on a per-process random state does
         // not show in every pair of runs)
-        let a = comp::compile_rasn(&base, &Cfg::default());
+        let rcfg = match v["leg"].as_str() {
+            Some(l) if l.starts_with("configured-") => l.rsplit(':').next().and_then(|i| i.parse::<usize>().ok()).and_then(|i| configured().get(i).cloned()).unwrap_or_default(),
+            _ => Cfg::default(),
+        };
+        let a = comp::compile_rasn(&base, &rcfg);
         let at = comp::compile_ts(&base);
         'rounds: for round in 0..6 {
-            let b = comp::compile_rasn(&var, &Cfg::default());
+            let b = comp::compile_rasn(&var, &rcfg);
             ctx.case(&format!("replay:rasn:{round}"), true);
             if let Some(d) = differ(&a, &b) {
                 fail(&mut ctx, "replay", &base, &var, &d);
@@ -375,6 +397,57 @@ pub fn run(tier: Tier, seed: u64, replay: Option<String>) -> i32 {
                 ctx.class_n(&format!("leg:{leg}"), 1);
                 if let Some(d) = d {
                     fail(&mut ctx, &leg, &srcs, &srcs, &d);
+                }
+            }
+        }
+    }
+    // ---- non-default backend configurations (several attributes that are not derives, several
+    // custom imports, every boolean option on): the same input compiled repeatedly and on
+    // several threads
+    {
+        let n_cf = tier.pick(150, 2000);
+        let mut drv = Driver::new(seed, 115, 2000);
+        let streams: Vec<Vec<u32>> = drv.draw(n_cf).iter().map(|t| t.current()).collect();
+        let cfgs: Vec<Cfg> = configured();
+        type CfRes = Vec<(String, Vec<String>, Option<String>)>;
+        let results: Vec<CfRes> = streams
+            .par_iter()
+            .enumerate()
+            .map(|(i, s)| {
+                let ms = gen_set(s, &GenCfg { max_modules: 3, ..GenCfg::default() });
+                let sources = vec![print(&ms)];
+                let cfg = &cfgs[i % cfgs.len()];
+                let mut out: CfRes = vec![];
+                let base = comp::compile_rasn(&sources, cfg);
+                if !matches!(base, Outcome::Ok(_)) {
+                    return out;
+                }
+                for _ in 0..5 {
+                    out.push((format!("configured-repeat:{}", i % cfgs.len()), sources.clone(), differ(&base, &comp::compile_rasn(&sources, cfg))));
+                }
+                let handles: Vec<_> = (0..3)
+                    .map(|_| {
+                        let t = sources.clone();
+                        let c2 = cfg.clone();
+                        std::thread::spawn(move || {
+                            comp::install_panic_hook();
+                            comp::compile_rasn(&t, &c2)
+                        })
+                    })
+                    .collect();
+                for h in handles {
+                    let o = h.join().unwrap_or(Outcome::Panic("join".into()));
+                    out.push((format!("configured-threads:{}", i % cfgs.len()), sources.clone(), differ(&base, &o)));
+                }
+                out
+            })
+            .collect();
+        for res in results {
+            for (n, (leg, srcs, d)) in res.into_iter().enumerate() {
+                ctx.case(&format!("{leg}:{n}:{}", srcs.join("\n")), true);
+                ctx.class_n(&format!("leg:{}", leg.split(':').next().unwrap_or("")), 1);
+                if let Some(d) = d {
+                    fail(&mut ctx, &leg, &srcs, &srcs, &format!("(backend configuration {}) {d}", leg.rsplit(':').next().unwrap_or("")));
                 }
             }
         }
